@@ -5,7 +5,7 @@ from harness.common import *
 from mingus.core import chords
 
 ID = "C06"
-LEAN_MODULES = ["Mingus.Props.C06", "Mingus.Tie.C06"]
+LEAN_MODULES = ["Mingus.Props.C06", "Mingus.Props.C06Poly", "Mingus.Tie.C06"]
 RULE = ("every shorthand key x every root with <=2 (quick) / <=3 (thorough) accidentals in any order (+ seeded roots with up to 12); "
         "every alias spelling (min/mi/- for m, maj/ma for M, each occurrence) x 10 roots; every key x 10 roots x slash basses; "
         "all ordered pairs of 14 representative shorthands as polychords x root pairs; NC/N.C./lists; named builder functions; "
@@ -116,6 +116,17 @@ def cases(tier, rng):
         for k2 in REPS:
             for r1, r2 in [("C", "G"), ("D", "F#"), ("Bb", "Bb"), ("E", "C"), ("A", "E"), ("F#", "Db")]:
                 yield Case("chords.from_shorthand", [r1 + k1 + "|" + r2 + k2], "poly", kind=("poly", r1, k1, r2, k2))
+    # polychords whose halves are shorthands that contain a slash themselves (6/9, m/M7, 6/7), and a right half on a bass
+    SL = ["6/9", "m/M7", "6/7"]
+    for k1 in SL + ["m", "7"]:
+        for k2 in SL + ["", "m7"]:
+            if k1 in SL or k2 in SL:
+                for r1, r2 in [("C", "D"), ("A", "G"), ("Bb", "F#")]:
+                    yield Case("chords.from_shorthand", [r1 + k1 + "|" + r2 + k2], "poly/slash-names", kind=("poly", r1, k1, r2, k2))
+    for k1 in ["m", "7", "6/9"]:
+        for k2 in ["", "m7", "6/9"]:
+            for r1, r2, b in [("D", "G", "B"), ("C", "F", "A"), ("E", "A", "C#")]:
+                yield Case("chords.from_shorthand", [r1 + k1 + "|" + r2 + k2 + "/" + b], "poly/right-half-on-bass", kind=("polyslash", r1, k1, r2, k2, b))
     for fn, k in NAMED.items():
         for r in roots:
             yield Case("chords.builder", [fn, r], "named", kind=("plain", r, k))
@@ -180,6 +191,10 @@ def oracle(c, obs):
         _, r1, k1, r2, k2 = kind
         want = poly_expect(spec_notes_of(r1, k1), spec_notes_of(r2, k2))
         return None if obs == want else "polychord is not Y's notes followed by X's notes without immediate repeats"
+    if kind[0] == "polyslash":
+        _, r1, k1, r2, k2, b = kind
+        want = poly_expect(spec_notes_of(r1, k1), [b] + spec_notes_of(r2, k2))
+        return None if obs == want else "polychord 'X|Y/b' is not (b, Y's notes) followed by X's notes without immediate repeats"
     if kind[0] == "nc":
         return None if obs == [] else "NC is not the empty chord"
     if kind[0] == "list":
